@@ -13,7 +13,7 @@
               without any change (for the four: C03_stale_histories2_partial, histories without OpLoad). *)
 From Coq Require Import PeanoNat Arith Lia.
 From AV Require Import Base.Bytes Base.Outcome Hash.HashModel Tree.Heap Tree.Ops Tree.Script Tree.Inv Tree.Iter
-  Tree.InvProofsNav Tree.InvProofs Tree.StaleProofs Tree.IterProofs Tree.Script2 Tree.InvLoad Tree.InvProofsOp2Rej
+  Tree.InvProofsBase Tree.InvProofsCore Tree.InvProofsTree Tree.InvProofsNav Tree.InvProofs Tree.StaleProofs Tree.IterProofs Tree.IterProofsFile Tree.Script2 Tree.InvLoad Tree.InvProofsOp2Rej
   Tree.InvProofsStale3.
 Open Scope string_scope.
 Open Scope list_scope.
@@ -56,3 +56,79 @@ Proof.
              name_definition_ref attr_schema_location root_attrs l w o h r w' H Hc Hd Hp Hr).
 Qed.
 End Headline.
+
+(* ------------------------------------------------------------------ the remaining clauses of the property text *)
+(* "it belongs to the model": an element reachable from the root of model k answers model() = k *)
+Lemma model_walk_val w : forall f i h, Depth w i h -> (h < f)%nat -> exists r, model_walk f i w = Val (r, w).
+Proof.
+  induction f as [|f IH]; intros i h Hd Hf; [lia|]. cbn [model_walk]. unfold wbind, get_node.
+  destruct Hd as [x n Hn Ht | x n p h Hn Hp Hd]; rewrite Hn.
+  - destruct (n_parent n) as [| |p]; [eexists; reflexivity|eexists; reflexivity|]. exfalso. eapply Ht; eauto.
+  - rewrite Hp. eapply IH; eauto. lia.
+Qed.
+
+Theorem model_of_live w k r x :
+  Core w -> nth_error (roots w) k = Some r -> Reach w r x -> model_of x w = Val (OK (N.of_nat k), w).
+Proof.
+  intros C Hk Hr.
+  destruct (c_roots _ C _ _ Hk) as (n & Hn & Hp).
+  assert (Ht : Top w x (PModel (N.of_nat k))).
+  { eapply reach_top; eauto. rewrite <- Hp. eapply T_here; eauto. rewrite Hp. congruence. }
+  assert (Ha : allocated w x).
+  { destruct Hr as [Ha|p c _ Hl]; [exact Ha|]. apply (c_up _ C) in Hl. destruct Hl as (nc & Hnc & _). eexists; eauto. }
+  destruct (c_depth _ C _ Ha) as (h & Hd). pose proof (depth_bound _ _ _ C Hd) as Hb.
+  destruct (model_walk_val w (fuel_of w) x h Hd ltac:(unfold fuel_of; lia)) as (r0 & E).
+  assert (E' : model_of x w = Val (r0, w)) by (unfold model_of, wbind, wget; exact E).
+  destruct (model_of_top _ _ _ _ E') as (_ & t & Ht' & Hr0).
+  rewrite (top_fun _ _ _ Ht' _ Ht) in Hr0. rewrite E', Hr0. reflexivity.
+Qed.
+
+Lemma q_parent_listed w p c : Core w -> lists w p c -> q_parent c w = Val (OK (Some p), w).
+Proof.
+  intros C Hl. apply (c_up _ C) in Hl. destruct Hl as (n & Hn & Hp).
+  unfold q_parent, wbind, get_node. rewrite Hn. unfold parent_of. rewrite Hp. reflexivity.
+Qed.
+
+Section Headline2.
+Variable T : tables.
+Variable tab_el tab_at tab_en : nametab.
+Variable check_fn : N -> list N -> res bool.
+Variable float_parse : list N -> option N.
+Variable float_fmt : N -> list N.
+Variables LATEST name_index name_definition_ref attr_schema_location : N.
+Variable root_attrs : list (N * cdata).
+
+Theorem navigation_histories2 l w :
+  run_ops2 T tab_el tab_at tab_en check_fn float_parse float_fmt LATEST name_index name_definition_ref
+           attr_schema_location root_attrs l empty_world = Val w ->
+  clean_shared_ops2 T tab_el tab_at tab_en check_fn float_parse float_fmt LATEST name_index name_definition_ref
+           attr_schema_location root_attrs l empty_world = true ->
+  (* membership: what the root of model k reaches belongs to model k *)
+  (forall k r x, nth_error (roots w) k = Some r -> Reach w r x -> q_model x w = Val (OK (N.of_nat k), w)) /\
+  (* parent() of a listed element is the lister *)
+  (forall p c, lists w p c -> q_parent c w = Val (OK (Some p), w)) /\
+  (* the element-scoped depth-first iterator, every depth limit *)
+  (forall i max, allocated w i ->
+     exists l f0, PreD w (lim_of max) 0 i l /\ forall f, (f0 <= f)%nat -> elements_dfs f i max w = Val l) /\
+  (* the file-scoped depth-first iterator *)
+  (forall file max fl x, nth_opt (w_files w) (N.to_nat file) = Some fl ->
+     nth_opt (w_models w) (N.to_nat (f_model fl)) = Some x ->
+     exists l f0, PreF w (lim_of max) file 0 (m_root x) l /\
+                  forall f, (f0 <= f)%nat -> file_elements_dfs f file max w = Val l) /\
+  (* the queries through a handle of a detached element *)
+  (forall h, Detached w h ->
+     (forall r w', q_model h w = Val (r, w') -> w' = w /\ r = ER ItemDeleted) /\
+     (forall r w', q_path T h w = Val (r, w') -> w' = w /\ failed r) /\
+     (forall r w', parent_in w h = PNone -> q_parent h w = Val (r, w') -> w' = w /\ r = ER ItemDeleted)).
+Proof.
+  intros H Hc.
+  pose proof (Core_histories2_full T tab_el tab_at tab_en check_fn float_parse float_fmt LATEST name_index
+                name_definition_ref attr_schema_location root_attrs l empty_world w empty_core Hc H) as C.
+  split; [|split; [|split; [|split]]].
+  - intros k r x Hk Hr. unfold q_model. eapply model_of_live; eauto.
+  - intros p c Hl. apply q_parent_listed; auto.
+  - intros i max Ha. apply dfs_iter_spec; auto.
+  - intros file max fl x Hf Hx. eapply fi_iter_spec; eauto.
+  - intros h Hd. destruct (stale_queries T h w Hd) as (A & B & _ & D). auto.
+Qed.
+End Headline2.
